@@ -44,9 +44,14 @@ func main() {
 		fmt.Fprintln(os.Stderr, err)
 		os.Exit(1)
 	}
-	if err := os.WriteFile(filepath.Join(*out, "Templates.v"), []byte(o.Coq()), 0o644); err != nil {
-		fmt.Fprintln(os.Stderr, err)
-		os.Exit(1)
+	// rewritten only when the content changes: an unchanged table costs no Coq rebuild (Model/KsReply.v and
+	// the ksreply driver depend on this file)
+	target, text := filepath.Join(*out, "Templates.v"), []byte(o.Coq())
+	if have, err := os.ReadFile(target); err != nil || string(have) != string(text) {
+		if err := os.WriteFile(target, text, 0o644); err != nil {
+			fmt.Fprintln(os.Stderr, err)
+			os.Exit(1)
+		}
 	}
 	fmt.Printf("tmplx: %d documents, %d value helpers, %d fragments, %d unknown, %d raw holes\n",
 		len(o.Docs), len(o.Values), len(o.Frags), len(o.Unknown), len(o.RawHoles))
